@@ -1,1 +1,31 @@
+pub mod c02;
+pub mod c03;
+pub mod c04;
+pub mod c05;
 pub mod c07;
+
+use crate::run::{Runner, Verdict};
+
+pub struct Entry {
+    pub run: fn(&mut Runner),
+    pub replay: fn(&str, &str, &[u64]) -> Verdict,
+    pub rule: &'static str,
+    pub assumptions: &'static [&'static str],
+}
+
+const BASE_ASSUME: &[&str] = &[
+    "rustc/LLVM and IEEE-754 round-to-nearest hardware arithmetic",
+    "the exact long accumulator of tfref::big (cross-validated against Python fractions at setup)",
+    "TwoFloat is #[repr(C)] {hi,lo}: operands are built from raw words by transmute",
+];
+
+pub fn registry(id: &str) -> Option<Entry> {
+    Some(match id {
+        "C02" => Entry { run: c02::run, replay: c02::replay, rule: "state = ordered pair of f64 bit patterns from the stated alphabet; transition = one constructor call on the real crate judged exactly (long accumulator) against the error-free-transformation specification; distinct by operand bits", assumptions: BASE_ASSUME },
+        "C03" => Entry { run: c03::run, replay: c03::replay, rule: "state = ordered operand pair (unit alphabets scaled to every (e0, e0+delta)) or an item sequence for sum; transition = one +,-,+=,-= or sum call on the real crate; judged by exact comparison |r-(a±b)| * 2^159 <= (k*2^53+c)|a±b|", assumptions: BASE_ASSUME },
+        "C04" => Entry { run: c04::run, replay: c04::replay, rule: "state = ordered operand pair; transition = one *, *= call in each operand typing; judged by exact comparison |r-ab| 2^106 <= k|ab| and the exactness clauses (zero, +-1, 2^j)", assumptions: BASE_ASSUME },
+        "C05" => Entry { run: c05::run, replay: c05::replay, rule: "state = ordered operand pair; transition = one /, /= or recip call; judged by the multiplied-out exact comparison |r*b-a| <= eps|a| and the exactness clauses (x/x, +-1, 2^j, zero numerator)", assumptions: BASE_ASSUME },
+        "C07" => Entry { run: c07::run, replay: c07::replay, rule: "every (a,b) pair of the stated alphabets is one state; each is judged through no_overlap, is_valid, both TryFrom impls and both round trips against RN(a+b)==a; a pair is distinct by its 128 bits", assumptions: BASE_ASSUME },
+        _ => return None,
+    })
+}
